@@ -11,6 +11,13 @@ fd, junit = tempfile.mkstemp(suffix=".xml", dir="/dev/shm")
 os.close(fd)
 env = dict(os.environ)
 env.pop("CODEMODDER_VERIF", None)
+# the editable install points at /repo/src: a worktree is only under test when its own src comes first on sys.path
+env["PYTHONPATH"] = os.path.join(os.path.abspath(repo), "src")
+where = subprocess.run(["/venv/bin/python", "-c", "import codemodder, core_codemods; print(codemodder.__file__); print(core_codemods.__file__)"],
+                       cwd=repo, env=env, capture_output=True, text=True).stdout.split()
+if len(where) != 2 or not all(w.startswith(os.path.abspath(repo) + "/src/") for w in where):
+    print("baseline would not test", repo, "- imports resolve to", where)
+    sys.exit(2)
 cmd = ["/venv/bin/python", "-m", "pytest", "-ra", "-q", "-p", "no:cacheprovider", "--timeout=900",
        "--continue-on-collection-errors", f"--junitxml={junit}"] + extra
 p = subprocess.run(cmd, cwd=repo, env=env, capture_output=True, text=True)
